@@ -111,4 +111,17 @@ CLAIMED = {
                 "are not re-derived numerically. A branch structure of the arrow computation that the rule cannot read is ANALYSIS-ERROR, not a violation.",
         "technique": "expression normalisation + rewriting with declared inverse pairs (term rewriting proof), call-site dimension table, argument-slot rule",
     },
+    "C08": {
+        "text": "Pairing rule decided on the CFG of every post-fit query of MinimizerIMinuit and MinimizerScipyOptimize (contour, profile, asymmetric errors, "
+                "Hessian / covariance getters, grid and beacon contours; generic code analysed in each adapter's context): every excursion primitive "
+                "(set/fix/_find_cost_cut/_get_cost_value/_get_profile_bound/_calc_fun_with_constraints, backend mncontour/mnprofile/minos/hesse, numerical "
+                "derivatives) is post-dominated on all normal paths by a restore (self.minimize() back to the minimum, _load_state(), write-back of the "
+                "stored optimum); _save_state() precedes every mover and dominates every _load_state(); a temporary fix(p) is released on all paths (also in "
+                "the nested profile closure); all problem-changing operations invalidate the adapter caches; _invalidate_cache covers every lazily computed "
+                "field; the did-fit flag is written only by reset/minimize/_load_state; save/load key symmetry; NexusFitter re-evaluates the graph at the "
+                "final parameters after minimizing.",
+        "note": "'Up to the minimizer tolerance' as a number is not decided; iminuit's minimize() lacks scipy's explicit graph write-back - triaged against "
+                "the running code as a ~1e-13 difference and deliberately not armed. Exception paths (RuntimeError from the backend) are not bracketed.",
+        "technique": "CFG post-dominance / dominance pairing rules (excursion -> restore, save -> load, fix -> release) + cache-invalidation must-call rules",
+    },
 }
